@@ -190,6 +190,7 @@ struct WalletSim {
         bool abandoned{false};
         int seq{0};
         bool committed_conflicted{false}; //!< handed to CommitTransaction when an ancestor was already conflicted by the chain (see Check)
+        bool committed_mconf{false};      //!< handed to CommitTransaction while a mempool transaction already spent one of its inputs
     };
     std::set<CScript> S;                               //!< the wallet's scripts: every address handed out + every change script the wallet reported
     std::map<Txid, KTx> K;                             //!< wallet-relevant transactions the wallet has been told about
@@ -367,14 +368,20 @@ struct WalletSim {
         return s;
     }
     /** A coin is held back by the wallet while one of its own (known) transactions that is neither confirmed, in the mempool,
-     *  conflicted nor abandoned spends it. */
-    bool Reserved(View& v, const COutPoint& op)
+     *  conflicted nor abandoned spends it. Returns 0 = free, 1 = held back, 2 = either answer is acceptable: the spender conflicts with
+     *  a mempool transaction that was there BEFORE the spender was committed; the wallet notices mempool conflicts when the
+     *  conflicting transaction arrives (or at the next load), and the property says nothing about mempool conflicts. */
+    int Reserved(View& v, const COutPoint& op)
     {
         auto sp = kspenders.find(op);
-        if (sp == kspenders.end()) return false;
-        for (auto& t : sp->second)
-            if (Status(v, t) == INACTIVE) return true;
-        return false;
+        if (sp == kspenders.end()) return 0;
+        int r = 0;
+        for (auto& t : sp->second) {
+            St s = Status(v, t);
+            if (s == INACTIVE) return 1;
+            if (s == MCONF && K.at(t).committed_mconf) r = 2;
+        }
+        return r;
     }
     /** Statement's rule for unconfirmed transactions: trusted iff in the mempool and every input is a wallet coin whose own
      *  transaction is confirmed or, recursively, trusted. */
@@ -398,7 +405,7 @@ struct WalletSim {
         return ok;
     }
 
-    struct MCoin { COutPoint op; CAmount value; CScript spk; int depth; bool safe; bool immature; bool reserved; };
+    struct MCoin { COutPoint op; CAmount value; CScript spk; int depth; bool safe; bool immature; int reserved; };
     std::vector<MCoin> ModelCoins(View& v)
     {
         std::vector<MCoin> out;
@@ -446,16 +453,17 @@ struct WalletSim {
         Absorb();
         View v = MakeView();
         std::vector<MCoin> coins = ModelCoins(v);
-        CAmount tr_all = 0, pend_all = 0, imm_all = 0, tr_def = 0, pend_def = 0, imm_def = 0;
-        std::vector<const MCoin*> want_safe, want_all;
+        CAmount tr_all = 0, pend_all = 0, imm_all = 0, tr_def = 0, pend_def = 0, imm_def = 0, tr_opt = 0, pend_opt = 0, imm_opt = 0;
+        std::vector<const MCoin*> want_safe, want_all; // reserved == 2: may or may not be listed
         for (auto& c : coins) {
-            CAmount *a, *d;
-            if (c.immature) { a = &imm_all; d = &imm_def; }
-            else if (c.safe) { a = &tr_all; d = &tr_def; }
-            else { a = &pend_all; d = &pend_def; }
+            CAmount *a, *d, *o;
+            if (c.immature) { a = &imm_all; d = &imm_def; o = &imm_opt; }
+            else if (c.safe) { a = &tr_all; d = &tr_def; o = &tr_opt; }
+            else { a = &pend_all; d = &pend_def; o = &pend_opt; }
             *a += c.value;
-            if (!c.reserved) *d += c.value;
-            if (!c.immature && !c.reserved && c.value >= 1) {
+            if (c.reserved == 0) *d += c.value;
+            if (c.reserved == 2) { *o += c.value; ctx.probe("coin_of_late_mempool_conflicted_tx_undecided"); }
+            if (!c.immature && c.reserved != 1 && c.value >= 1) {
                 want_all.push_back(&c);
                 if (c.safe) want_safe.push_back(&c);
             }
@@ -486,10 +494,7 @@ struct WalletSim {
             ctx.failf("balance-untrusted-pending-mismatch", "%s: wallet untrusted_pending %ld, chain+mempool give %ld; recent wallet txs:%s", where.c_str(), (long)ball.m_mine_untrusted_pending, (long)pend_all, diag().c_str());
         if (ball.m_mine_immature != imm_all)
             ctx.failf("balance-immature-mismatch", "%s: wallet immature %ld, chain gives %ld (tip h=%d)", where.c_str(), (long)ball.m_mine_immature, (long)imm_all, v.height);
-        if (bdef.m_mine_trusted != tr_def || bdef.m_mine_untrusted_pending != pend_def || bdef.m_mine_immature != imm_def)
-            ctx.failf(late ? kLateClass : "balance-excluding-nonmempool-spends-mismatch", "%s: wallet %ld/%ld/%ld, model %ld/%ld/%ld (trusted/pending/immature, leaving out coins spent by the wallet's own inactive transactions); recent wallet txs:%s", where.c_str(),
-                      (long)bdef.m_mine_trusted, (long)bdef.m_mine_untrusted_pending, (long)bdef.m_mine_immature, (long)tr_def, (long)pend_def, (long)imm_def, diag().c_str());
-        // (3) spendable coins: safe ones, and all including untrusted unconfirmed ones
+        // (3) spendable coins: safe ones, and all including untrusted unconfirmed ones (checked before (2): a missing or extra coin names the clause better)
         for (int pass = 0; pass < 2; ++pass) {
             std::vector<WalletCoin> got = wn->AvailableCoins(*w, /*include_unsafe=*/pass == 1);
             const std::vector<const MCoin*>& want = pass ? want_all : want_safe;
@@ -502,12 +507,13 @@ struct WalletSim {
                     const char* cls = "spendable-coin-unexpected";
                     if (!in_utxo && !v.pool.count(g.outpoint.hash)) cls = "spendable-coin-not-in-chain-or-mempool";
                     else if (v.pool_spender.count(g.outpoint)) cls = "spendable-coin-spent-in-mempool";
-                    else if (Reserved(v, g.outpoint)) cls = "spendable-coin-spent-by-inactive-wallet-tx";
+                    else if (Reserved(v, g.outpoint) == 1) cls = "spendable-coin-spent-by-inactive-wallet-tx";
                     ctx.failf(cls, "%s: %s lists %s:%u (value %ld, depth %d) which the model does not; its tx: %s; spenders:%s", where.c_str(), which, Hx(g.outpoint.hash).c_str(), g.outpoint.n, (long)g.txout.nValue, g.depth,
                               wn->TxStateString(*w, g.outpoint.hash).c_str(), SpendersText(v, g.outpoint).c_str());
                 }
                 if (i >= got.size() || want[j]->op < got[i].outpoint) {
                     const MCoin& m = *want[j];
+                    if (m.reserved == 2) { ++j; continue; }
                     const char* cls = "spendable-coin-missing";
                     if (late) cls = kLateClass;
                     auto sp = kspenders.find(m.op);
@@ -530,6 +536,11 @@ struct WalletSim {
                 ++j;
             }
         }
+        // (2) default GetBalance: the same sums without the coins that inactive wallet transactions hold back
+        auto within = [](CAmount x, CAmount lo, CAmount extra) { return x >= lo && x <= lo + extra; };
+        if (!within(bdef.m_mine_trusted, tr_def, tr_opt) || !within(bdef.m_mine_untrusted_pending, pend_def, pend_opt) || !within(bdef.m_mine_immature, imm_def, imm_opt))
+            ctx.failf(late ? kLateClass : "balance-excluding-nonmempool-spends-mismatch", "%s: wallet %ld/%ld/%ld, model %ld/%ld/%ld (trusted/pending/immature, leaving out coins spent by the wallet's own inactive transactions); recent wallet txs:%s", where.c_str(),
+                      (long)bdef.m_mine_trusted, (long)bdef.m_mine_untrusted_pending, (long)bdef.m_mine_immature, (long)tr_def, (long)pend_def, (long)imm_def, diag().c_str());
         last_spendable = tr_def;
         // reach probes + fingerprint
         uint64_t fp = mix64(ref().blocks[v.tip].hash.GetUint64(0), (uint64_t)tr_all ^ ((uint64_t)pend_all << 1) ^ ((uint64_t)imm_all << 2));
@@ -553,7 +564,7 @@ struct WalletSim {
         if (imm_all > 0) ctx.probe("immature_nonzero");
         for (auto& c : coins) {
             if (c.depth == 0 && c.safe) ctx.probe("trusted_unconfirmed_coin");
-            if (c.reserved) ctx.probe("coin_reserved_by_inactive_tx");
+            if (c.reserved == 1) ctx.probe("coin_reserved_by_inactive_tx");
             auto u = v.utxo->find(c.op);
             if (u != v.utxo->end() && u->second.coinbase) {
                 if (c.depth == kMaturityDepth - 1) ctx.probe("coinbase_depth_100_immature");
@@ -706,7 +717,9 @@ struct WalletSim {
             if (fork != unload_tip) ctx.probe("load_after_offline_reorg");
             else ctx.probe("load_after_offline_blocks");
         }
-        // ... and asks for the mempool's contents (parents first, so that spends of wallet coins are recognised)
+        // ... and asks for the mempool's contents (parents first, so that spends of wallet coins are recognised); every mempool
+        // conflict is noticed now
+        for (auto& [id, k] : K) k.committed_mconf = false;
         SeeMempool(pool_before);
         Absorb(); // resubmissions during postInitProcess
         ctx.probe("wallet_loaded");
@@ -910,10 +923,14 @@ struct WalletSim {
             KSee(res.tx);
             Absorb();
             View v = MakeView();
-            if (Status(v, res.tx->GetHash()) == CCONF) {
+            St st = Status(v, res.tx->GetHash());
+            if (st == CCONF) {
                 // the user forced inputs that descend from a transaction the chain has already conflicted
                 K[res.tx->GetHash()].committed_conflicted = true;
                 ctx.probe("committed_tx_already_conflicted");
+            } else if (st == MCONF) {
+                K[res.tx->GetHash()].committed_mconf = true;
+                ctx.probe("committed_tx_already_conflicted_by_mempool");
             }
             ctx.evf("double-spend committed inpool=%d", (int)node().pool().exists(res.tx->GetHash()));
         }
@@ -1049,6 +1066,7 @@ struct WalletSim {
         int a = ref().Ancestor(tip, from);
         KBlockConnected(*ref().blocks[a].block);
         for (int b : ref().PathFrom(a, tip)) KBlockConnected(*ref().blocks[b].block);
+        for (auto& [id, k] : K) k.committed_mconf = false; // the scan ends with requestMempoolTransactions
         SeeMempool(pool_before);
         ctx.probe("rescan");
         ctx.evf("rescan from h=%d", from);
@@ -1229,8 +1247,8 @@ Engine MakeEngine()
     e.run = Run;
     e.describe = Describe;
     e.chunk = 1;
-    e.quick_runs = 160;
-    e.thorough_runs = 5000;
+    e.quick_runs = 400;
+    e.thorough_runs = 10000;
     e.quick_budget_s = 50;
     e.thorough_budget_s = 900;
     e.run_timeout_s = 300;
